@@ -30,6 +30,15 @@
 //                                                 keep=1: unsynced on-disk SM updates survived; the log is then
 //                                                 re-delivered from (recovered index + 1 - overlap) in tasks of <split> entries
 //   I <overlap> <split>                           A saves a snapshot, B installs it, then is re-delivered the rest
+//   T <j> <r|x> <override> <overhead> <cindex>    the pending task goes to B and B saves FROM INSIDE it: right after the
+//                                                 first entry at or after the j-th of the task has been reported (per-entry
+//                                                 apply path, concurrent / on-disk kinds; otherwise after the task)
+//   M <overlap> <pre>                             on-disk: a fresh follower that applied <pre> entries asks B for a streamed
+//                                                 snapshot (real node.handleSnapshotTask -> canStream -> node.stream -> chunk
+//                                                 writer -> the follower's chunk receiver), installs it, gets the rest of the log
+//   W <overlap> <keep> <pre>                      on-disk: B crashes and restarts as with R, then replays its log one entry at a
+//                                                 time and is asked for a stream (as M) at every replay position up to one past
+//                                                 the index its state machine was opened at
 package main
 
 import (
@@ -59,6 +68,7 @@ type world struct {
 	viol    []string
 	feat    map[string]bool
 	cur     string // what the harness is doing, for the panic monitor
+	nfol    uint64 // followers created so far
 }
 
 func (w *world) emit(s string) { w.lines = append(w.lines, fmt.Sprintf("%s %d %s", w.id, w.k, s)) }
@@ -171,18 +181,228 @@ func (w *world) newRemovals(r *replica, from int) {
 	}
 }
 
-func (w *world) save(r *replica, f []string) {
+func (w *world) request(r *replica, f []string) hk.SSRequest {
 	req := hk.SSRequest{Type: hk.UserRequested}
-	if f[1] == "x" {
+	if f[0] == "x" {
 		req.Type = hk.Exported
 		req.Path = fmt.Sprintf("/c08/export-%s-%d", r.name, w.k)
 		if err := hk.MkdirAll(req.Path, w.fs); err != nil {
 			panic(err)
 		}
 	}
-	req.OverrideCompaction = f[2] == "1"
-	req.CompactionOverhead = u(f[3])
-	req.CompactionIndex = u(f[4])
+	req.OverrideCompaction = f[1] == "1"
+	req.CompactionOverhead = u(f[2])
+	req.CompactionIndex = u(f[3])
+	return req
+}
+
+// afterSave: what the step worker does next (removeLog) and the compaction monitors
+func (w *world) afterSave(r *replica, tag string, idx uint64, nrm int) {
+	w.emit(fmt.Sprintf("%s idx=%d pending=%d", tag, idx, r.node.PendingCompactLogTo()))
+	if p := r.node.PendingCompactLogTo(); p > r.ldb.ss.Index {
+		w.viol = append(w.viol, fmt.Sprintf("COMPACTION-ABOVE-SNAPSHOT replica %s published compaction index %d while its newest recorded snapshot is %d", r.name, p, r.ldb.ss.Index))
+	}
+	if idx > 0 {
+		w.feat["snapshot"] = true
+	}
+	// an on-disk replica's record is only recoverable if the state machine itself is durable up to its OnDiskIndex
+	if r.disk != nil && idx > 0 && r.ldb.ss.Index == idx && r.ldb.ss.OnDiskIndex > r.disk.applied {
+		w.viol = append(w.viol, fmt.Sprintf("SNAPSHOT-NOT-DURABLE replica %s recorded snapshot %d with OnDiskIndex %d while its state machine is durable only up to %d", r.name, idx, r.ldb.ss.OnDiskIndex, r.disk.applied))
+	}
+	r.removeLog()
+	w.newRemovals(r, nrm)
+}
+
+// saveInTask: the snapshot worker runs B's save between two entries of the task
+// the apply worker is handling (it is not paused for concurrent / on-disk state
+// machines): lastApplied still has its value from before the task
+func (w *world) saveInTask(r *replica, f []string) {
+	j := u(f[1])
+	req := w.request(r, f[2:])
+	pend := w.pending()
+	w.flushed = len(w.log)
+	if len(pend) > 0 {
+		w.deliverTo(w.A, pend)
+	}
+	nrm := len(r.ldb.removals)
+	fired := false
+	idx := uint64(0)
+	if len(pend) > 0 && !r.lag {
+		applied := r.view().Index
+		var todo []pb.Entry
+		for _, e := range pend {
+			if e.Index > applied {
+				todo = append(todo, e)
+			}
+		}
+		if w.p.kind != "reg" && len(todo) > 0 && !batched(w.p.kind, todo) {
+			target := todo[0].Index
+			if j > 1 {
+				target += j - 1
+			}
+			r.proxy.onApplied = func(i uint64) {
+				if fired || i < target {
+					return
+				}
+				fired = true
+				w.feat["save-inside-task"] = true
+				var err error
+				if idx, err = r.node.DoSave(req); err != nil {
+					panic(err)
+				}
+			}
+		}
+		w.deliverTo(r, pend)
+		r.proxy.onApplied = nil
+	}
+	if !fired {
+		var err error
+		if idx, err = r.node.DoSave(req); err != nil {
+			panic(err)
+		}
+	}
+	w.afterSave(r, "T", idx, nrm)
+}
+
+// streamTo: a follower asks src for a streamed snapshot, installs what arrives
+// and is handed the rest of the log; it must then equal the uninterrupted replica
+func (w *world) streamTo(src *replica, ov uint64, pre uint64) {
+	if w.p.kind != "disk" {
+		w.emit("M n/a")
+		return
+	}
+	w.nfol++
+	id := 2 + w.nfol
+	old := w.cur
+	defer func() { w.cur = old }()
+	w.cur = "C.start"
+	c := start("C", id, w.p, w.fs, &cellLogDB{}, nil)
+	c.initialRecover(true)
+	srcIdx := src.view().Index
+	if srcIdx == 0 {
+		pre = 0
+	} else if pre > srcIdx-1 {
+		pre = srcIdx - 1
+	}
+	if pre > 0 {
+		w.cur = "C.apply"
+		c.deliver(w.log[:pre])
+		c.printed = c.view().Index
+	}
+	var received []pb.Message
+	chunks := hk.NewChunk(func(mb pb.MessageBatch) { received = append(received, mb.Requests...) },
+		func(uint64, uint64, uint64) {}, snapRoot, 0, w.fs)
+	w.cur = "stream." + src.name
+	accepted, err := src.node.RequestStream(id, &streamSink{to: id, chunks: chunks})
+	if err != nil {
+		panic(err)
+	}
+	if !accepted {
+		w.emit("M refused")
+		w.feat["stream-refused"] = true
+		return
+	}
+	if len(received) != 1 || received[0].Type != pb.InstallSnapshot {
+		panic(fmt.Sprintf("follower received %d messages", len(received)))
+	}
+	ss := received[0].Snapshot
+	w.emit(fmt.Sprintf("M stream idx=%d term=%d od=%d", ss.Index, ss.Term, ss.OnDiskIndex))
+	w.feat["stream"] = true
+	if ss.OnDiskIndex > ss.Index {
+		w.viol = append(w.viol, fmt.Sprintf("STREAM-DATA-AHEAD replica %s streamed a snapshot with index %d (term %d, membership of that index) whose state machine data is that of index %d", src.name, ss.Index, ss.Term, ss.OnDiskIndex))
+	}
+	if ss.Index <= c.view().LastIndex {
+		w.emit("M nothing-to-install")
+		return
+	}
+	// the follower's step worker: record durable, flag file removed, processSnapshot; then recover
+	w.cur = "C.recover"
+	if err := c.ldb.SaveRaftState([]pb.Update{{ShardID: 1, ReplicaID: id, Snapshot: ss}}, 0); err != nil {
+		panic(err)
+	}
+	env := c.node.SnapshotEnv(ss.Index)
+	if err := env.RemoveFlagFile(); err != nil {
+		panic(err)
+	}
+	if c.ldb.maxIndex < ss.Index {
+		c.ldb.maxIndex = ss.Index
+	}
+	nrm := len(c.ldb.removals)
+	task, ok, err := c.node.ProcessSnapshot(ss, c.view().LastIndex)
+	if err != nil || !ok {
+		panic(fmt.Sprintf("processSnapshot: %v %v", ok, err))
+	}
+	got, err := c.node.Recover(task)
+	if err != nil {
+		panic(err)
+	}
+	c.printed = c.view().Index
+	c.removeLog()
+	w.emit(fmt.Sprintf("M installed from=%d %s | %s", got, c.obs(), c.aux()))
+	w.newRemovals(c, nrm)
+	from := uint64(1)
+	if got+1 > ov {
+		from = got + 1 - ov
+	}
+	if got == 0 {
+		from = c.view().Index + 1
+	}
+	w.catchUp(c, from, 0)
+	w.emit("C " + c.obs())
+	if a, b := w.A.obs(), c.obs(); a != b {
+		w.viol = append(w.viol, fmt.Sprintf("STREAM-TWINS-DIFFER uninterrupted [%s] follower that installed the stream of index %d [%s]", a, ss.Index, b))
+	}
+}
+
+// restartAndStream: restart B, then replay one entry at a time with a stream
+// request at every replay position in and just after the catch-up window
+func (w *world) restartAndStream(f []string) {
+	ov, keep, pre := u(f[1]), f[2] == "1", u(f[3])
+	w.flush()
+	old := w.B
+	if old.disk != nil && keep {
+		*old.disk = old.usm.(*diskSM).mem
+	}
+	w.cur = "B.recover"
+	nb := start("B", 2, w.p, w.fs, old.ldb, old.disk)
+	w.B = nb
+	nrm := len(nb.ldb.removals)
+	idx := nb.initialRecover(false)
+	if idx < nb.ldb.removedTo {
+		w.viol = append(w.viol, fmt.Sprintf("GAP-AFTER-RESTART replica B recovered from snapshot %d but its log was compacted up to %d", idx, nb.ldb.removedTo))
+	}
+	nb.removeLog()
+	w.cur = ""
+	w.emit(fmt.Sprintf("W from=%d %s | %s", idx, nb.obs(), nb.aux()))
+	w.newRemovals(nb, nrm)
+	if idx > 0 {
+		w.feat["restart-from-snapshot"] = true
+	}
+	window := nb.view().OnDiskInitIndex + 1
+	pos := idx
+	for {
+		if pos <= window {
+			if pos < window-1 {
+				w.feat["stream-request-in-replay-window"] = true
+			}
+			w.streamTo(nb, ov, pre)
+		}
+		if pos >= uint64(w.flushed) {
+			break
+		}
+		if pos < window {
+			w.deliverTo(nb, w.log[pos:pos+1])
+			pos++
+		} else {
+			w.deliverTo(nb, w.log[pos:w.flushed])
+			pos = uint64(w.flushed)
+		}
+	}
+	nb.lag = false
+}
+
+func (w *world) save(r *replica, f []string) {
+	req := w.request(r, f[1:])
 	during := f[5] == "1" && w.p.kind != "reg"
 	pend := w.pending()
 	w.flushed = len(w.log)
@@ -213,15 +433,7 @@ func (w *world) save(r *replica, f []string) {
 		}
 		w.emitResults(r)
 	}
-	w.emit(fmt.Sprintf("S idx=%d pending=%d", idx, r.node.PendingCompactLogTo()))
-	if p := r.node.PendingCompactLogTo(); p > r.ldb.ss.Index {
-		w.viol = append(w.viol, fmt.Sprintf("COMPACTION-ABOVE-SNAPSHOT replica %s published compaction index %d while its newest recorded snapshot is %d", r.name, p, r.ldb.ss.Index))
-	}
-	if idx > 0 {
-		w.feat["snapshot"] = true
-	}
-	r.removeLog()
-	w.newRemovals(r, nrm)
+	w.afterSave(r, "S", idx, nrm)
 }
 
 func (w *world) restartB(f []string) {
@@ -359,7 +571,7 @@ func (w *world) op(o string) {
 	if len(f) == 0 {
 		return
 	}
-	need := map[string]int{"a": 5, "c": 6, "t": 1, "b": 1, "y": 1, "L": 1, "S": 6, "R": 4, "I": 3}
+	need := map[string]int{"a": 5, "c": 6, "t": 1, "b": 1, "y": 1, "L": 1, "S": 6, "R": 4, "I": 3, "T": 6, "M": 3, "W": 4}
 	if n, ok := need[f[0]]; !ok || len(f) != n {
 		w.emit("? " + f[0])
 		return
@@ -397,6 +609,17 @@ func (w *world) op(o string) {
 		w.restartB(f)
 	case "I":
 		w.install(f)
+	case "T":
+		w.saveInTask(w.B, f)
+	case "M":
+		w.flush()
+		w.streamTo(w.B, u(f[1]), u(f[2]))
+	case "W":
+		if w.p.kind != "disk" {
+			w.emit("W n/a")
+			return
+		}
+		w.restartAndStream(f)
 	}
 }
 
@@ -440,7 +663,7 @@ func runCase(line string, st *vh.Stats) []string {
 			}
 			st.Count("panic")
 			w.feat["panic"] = true
-			if strings.HasPrefix(w.cur, "B.") {
+			if strings.HasPrefix(w.cur, "B.") || strings.HasPrefix(w.cur, "C.") {
 				// the uninterrupted replica applied the same log without stopping
 				w.viol = append(w.viol, fmt.Sprintf("CUT-REPLICA-PANIC during %s at op %d [%s]: %s", w.cur, k, o, msg))
 			}
@@ -472,7 +695,8 @@ func runCase(line string, st *vh.Stats) []string {
 		st.Violation(id, v)
 	}
 	keys := []string{}
-	for _, k := range []string{"snapshot", "restart-from-snapshot", "install", "overlap", "compaction", "update-during-save", "lag", "ondisk-init-skip"} {
+	for _, k := range []string{"snapshot", "restart-from-snapshot", "install", "overlap", "compaction", "update-during-save", "lag", "ondisk-init-skip",
+		"save-inside-task", "stream", "stream-refused", "stream-request-in-replay-window"} {
 		if w.feat[k] {
 			keys = append(keys, k)
 			st.Count("case with " + k)
